@@ -11,14 +11,30 @@ import (
 	"strings"
 )
 
+// exprSize is the number of nodes of an expression.
+func exprSize(ex expr.Expr) int {
+	switch e := ex.(type) {
+	case expr.Binary:
+		return 1 + exprSize(e.Arg1()) + exprSize(e.Arg2())
+	case expr.Less:
+		return 1 + exprSize(e.Arg1()) + exprSize(e.Arg2()) + exprSize(e.ExprTrue()) + exprSize(e.ExprFalse())
+	case expr.MemLoad:
+		return 1 + exprSize(e.Addr())
+	default:
+		return 1
+	}
+}
+
 // replaceRule is the substitution function used for ReplaceAll: a node of the
-// requested kind whose width equals w is replaced by RegLoad("repl", w).
+// requested kind whose width equals w is replaced by RegLoad("repl<n>", w),
+// where n is the number of nodes of the expression the function was given.
+// The answer thereby depends on the (already substituted) children.
 func replaceRule[T expr.Expr](w expr.Width) exprtransform.ExprReplaceFunc[T] {
 	return func(ex T) (expr.Expr, bool) {
 		if ex.Width() != w {
 			return nil, false
 		}
-		return expr.NewRegLoad("repl", w), true
+		return expr.NewRegLoad(expr.Key(fmt.Sprintf("repl%d", exprSize(ex))), w), true
 	}
 }
 
